@@ -192,9 +192,14 @@ def gen_history(rng):
             G[zero_col * cd + i] = 0.0
         for i in range(p):
             A[zero_col * p + i] = 0.0
+    # positions the solvers actually read: 'l' and 'q' rows and the lower triangles of the 's' blocks
+    ref_rows = [off + i for kind_, off, m_ in CR.blocks(dims) if kind_ != 's' for i in range(m_)] + \
+               [off + jj * m_ + ii for kind_, off, m_ in CR.blocks(dims) if kind_ == 's' for jj in range(m_) for ii in range(jj, m_)]
+    diag_rows = [off + i for kind_, off, m_ in CR.blocks(dims) if kind_ != 's' for i in range(m_)] + \
+                [off + jj * m_ + jj for kind_, off, m_ in CR.blocks(dims) if kind_ == 's' for jj in range(m_)]
     for j in range(n):
-        if j != zero_col and not any(G[j * cd:(j + 1) * cd]):
-            G[j * cd + rng.randrange(cd)] = 1.0
+        if j != zero_col and not any(G[j * cd + i] for i in ref_rows):
+            G[j * cd + rng.choice(diag_rows)] = 1.0       # a diagonal / vector entry keeps the 's' blocks symmetric
     # the property quantifies over (G, A, P) that satisfy the rank assumptions: Rank(A) = p and
     # Rank([G; A]) = n (the zero-column class: on the other columns; H supplies the rest), with a
     # margin so that the residual bound is meaningful.  Random sparse data violate this now and then.
@@ -202,13 +207,13 @@ def gen_history(rng):
         ok = True
         if data_class in ('regular', 'rank_singular', 'dependent_columns'):
             keep = [j for j in range(n) if j != zero_col]
-            rows = [[G[j * cd + i] for j in keep] for i in range(cd)] + [[A[j * p + i] for j in keep] for i in range(p)]
+            rows = [[G[j * cd + i] for j in keep] for i in ref_rows] + [[A[j * p + i] for j in keep] for i in range(p)]
             rk, ratio = CR.numeric_rank(rows)
             rka, ratio_a = CR.numeric_rank([[A[j * p + i] for j in range(n)] for i in range(p)]) if p else (0, 1.0)
             ok = rk == len(keep) and ratio > 0.02 and rka == p and (p == 0 or ratio_a > 0.02)
             if ok and solver == 'chol2' and data_class == 'regular':
                 # chol2 factors S = GG'W^-2 GG + H itself: G alone must have full column rank on those columns
-                rkg, ratio_g = CR.numeric_rank([[G[j * cd + i] for j in keep] for i in range(cd)])
+                rkg, ratio_g = CR.numeric_rank([[G[j * cd + i] for j in keep] for i in ref_rows])
                 ok = rkg == len(keep) and ratio_g > 0.02
         if ok:
             break
